@@ -181,7 +181,7 @@ func c14W1(b *core.B, r *core.Rng, nProg int) {
 					go func(g int) {
 						defer wg.Done()
 						<-start
-						for rep := 0; rep < 3; rep++ {
+						for rep := 0; rep < 3 && atomic.LoadInt32(&c14LogFull) == 0; rep++ {
 							ctx, env := mk()
 							o, pan := c14Exec(t, ctx, env)
 							if pan != nil {
@@ -418,7 +418,7 @@ func c14W4(b *core.B, r *core.Rng, rounds int) {
 			go func(g int) {
 				defer wg.Done()
 				<-start
-				for rep := 0; rep < 6; rep++ {
+				for rep := 0; rep < 6 && atomic.LoadInt32(&c14LogFull) == 0; rep++ {
 					o, pan := run(fmt.Sprintf("w%d", g))
 					if pan != nil {
 						mu.Lock()
@@ -516,7 +516,7 @@ func c14W5(b *core.B, r *core.Rng, rounds int) {
 			go func(g int) {
 				defer wg.Done()
 				<-start
-				for rep := 0; rep < 6; rep++ {
+				for rep := 0; rep < 6 && atomic.LoadInt32(&c14LogFull) == 0; rep++ {
 					o, pan := run(g)
 					if pan != nil {
 						mu.Lock()
@@ -788,16 +788,32 @@ func c14W3(b *core.B, r *core.Rng, rounds int, record bool) {
 // 16 MB there is nothing more to learn from further rounds: the workload stops early and
 // the reports that are there are attributed as usual (never the case on a tree that holds).
 func c14RaceLogFull(b *core.B) bool {
-	logBase := os.Getenv("VERIF_RACE_LOG")
-	if logBase == "" {
-		return false
-	}
-	st, err := os.Stat(fmt.Sprintf("%s.%d", logBase, os.Getpid()))
-	if err != nil || st.Size() < 16<<20 {
+	if atomic.LoadInt32(&c14LogFull) == 0 {
 		return false
 	}
 	b.Count("workload-stopped-early:race-log-over-16MB")
 	return true
+}
+
+// c14LogFull is set by a poller (c14WatchRaceLog) so that the goroutines of a round can leave
+// their repetitions without touching the file system or the batch's counters.
+var c14LogFull int32
+
+func c14WatchRaceLog() {
+	logBase := os.Getenv("VERIF_RACE_LOG")
+	if logBase == "" {
+		return
+	}
+	name := fmt.Sprintf("%s.%d", logBase, os.Getpid())
+	go func() {
+		for {
+			time.Sleep(200 * time.Millisecond)
+			if st, err := os.Stat(name); err == nil && st.Size() >= 16<<20 {
+				atomic.StoreInt32(&c14LogFull, 1)
+				return
+			}
+		}
+	}()
 }
 
 var reRaceFrame = regexp.MustCompile(`(?m)^  (\S+)\(.*\)\n\s+(\S+):(\d+)`)
@@ -878,6 +894,7 @@ func c14Run(b *core.B) {
 		scale = 4
 	}
 	c14Quiet = (b.Batch/5)%2 == 1
+	c14WatchRaceLog()
 	if c14Quiet {
 		b.Count("batches-without-harness-synchronisation")
 	}
